@@ -94,7 +94,7 @@ typedef struct {
      * pick >= 0 -> the base plan plus placement #pick in *out */
     int (*sweep)(uint64_t seed, const char *cfg, int pick, plan *out);
 } engine;
-extern const engine eng_events, eng_hheap, eng_coro, eng_procs, eng_mempool, eng_rng, eng_experiment, eng_util;
+extern const engine eng_events, eng_hheap, eng_coro, eng_procs, eng_mempool, eng_rng, eng_experiment, eng_util, eng_teardown;
 const engine *engine_by_name(const char *name);
 
 /* time codes: integer code -> double, exact in binary (quarters), plus a few extremes */
